@@ -317,6 +317,137 @@ class Conv:
         c('async_free 0')
         return dict(outcomes=outcomes, during=during, still_open=still_open, nconn_before=nconn_before, nconn=nconn, streams={q: bytes(v) for q, v in streams.items()}, ids=ids, hashes=allh)
 
+    def run_pushed_configs(self, chunker, callback):
+        """the server pushes four configurations (maximum requests 101..104) and then the reply to the one request, as one byte stream cut by
+        `chunker`: the upper layer has to see the PDUs in the order of the stream - the configuration callback is called for 101, 102, 103, 104
+        in that order (without a callback: the configuration handle handed out last holds 104) - and the request completes with its reply"""
+        s = self.s
+        c = s.cmd
+        now = 1700000000
+        c('clock %d' % now)
+        c('async_new 0 0 sign')
+        c('async_endpoint 0 set ksi+tcp://agg.example:3332 anon anon')
+        c('async_opt 0 cache_size 4')
+        c('async_opt 0 max_request_count 1000')
+        for o in ('snd_timeout', 'rcv_timeout', 'con_timeout'):
+            c('async_opt 0 %s 3000' % o)
+        if callback:
+            c('async_pushconf 0')
+        s.conf_callbacks = []
+        c('net_ep agg.example 3332 connect=0 send=- recv=-')
+        nconn0 = len(s.tcp_order)
+        h0 = self.hashes[0]
+        rid = int(c('async_add 0 0 sign %s 0 q0' % h0.hex())['reqid'])
+        now += 1
+        c('clock %d' % now)
+        c('async_run 0')
+        oc = [i for i in s.tcp_order[nconn0:] if i['open']]
+        if not oc:
+            c('async_free 0')
+            return dict(error='no connection')
+        stream = b''.join(S.wrap_v2(S.AGGR_RESP_V2, [S.conf_elem('aggr', 2, max_level=10, aggr_period=400, max_req=101 + k)], KEY) for k in range(4))
+        stream += reply_for(random.Random('pc/' + self.label), rid, h0, None)
+        handles, done = [], None
+        for piece in chunker(stream) + [b''] * 6:
+            if piece:
+                c('net_push %d %s' % (oc[-1]['fd'], piece.hex()))
+            for _ in range(3):
+                now += 1
+                c('clock %d' % now)
+                q = c('async_run 0')
+                if q.get('handle') == '1':
+                    if q.get('state') == '4':
+                        handles.append(q.get('config', ''))
+                    elif q.get('tag') == 'q0':
+                        done = ('resp', q.get('sigdoc')) if q.get('state') == '3' else ('err', int(q.get('herr', 0)))
+        cbs = list(s.conf_callbacks)
+        s.conf_callbacks = []
+        c('async_free 0')
+        return dict(callbacks=cbs, handles=handles, done=done)
+
+    def run_config_request_overtaken(self, k):
+        """the caller asks for the server's configuration; k bytes of that request are written, then the socket would block; meanwhile the
+        server pushes a configuration of its own accord. Whatever the client makes of its half-written request, the bytes on every connection
+        have to remain whole requests (cut short only where the connection ended), and a request added afterwards has to complete"""
+        s = self.s
+        c = s.cmd
+        now = 1700000000
+        c('clock %d' % now)
+        c('async_new 0 0 sign')
+        c('async_endpoint 0 set ksi+tcp://agg.example:3332 anon anon')
+        c('async_opt 0 cache_size 4')
+        c('async_opt 0 max_request_count 1000')
+        for o in ('snd_timeout', 'rcv_timeout', 'con_timeout'):
+            c('async_opt 0 %s 3000' % o)
+        c('net_ep agg.example 3332 connect=0 send=%s recv=-' % ('%d,0' % k))
+        nconn0 = len(s.tcp_order)
+        streams = {}
+
+        def collect():
+            for info in s.tcp_order[nconn0:]:
+                streams.setdefault(info['seq'], bytearray())
+                streams[info['seq']] += info['sent']
+                info['sent'] = bytearray()
+        q = c('async_add 0 0 signconf cq')
+        if q.rc != 0:
+            c('async_free 0')
+            return dict(error='configuration request refused rc=%#x' % q.rc)
+        now += 1
+        c('clock %d' % now)
+        c('async_run 0')
+        collect()
+        oc = [i for i in s.tcp_order[nconn0:] if i['open']]
+        if not oc:
+            c('async_free 0')
+            return dict(error='no connection')
+        first = oc[-1]
+        c('net_push %d %s' % (first['fd'], S.wrap_v2(S.AGGR_RESP_V2, [S.conf_elem('aggr', 2, max_level=10, aggr_period=400, max_req=77)], KEY).hex()))
+        # the socket stays blocked while the client reads the pushed configuration (1 or 2 runs), then it is writable again
+        c('net_conn %d send=0,0,0,0' % first['fd'])
+        for _ in range(1 + k % 2):
+            now += 1
+            c('clock %d' % now)
+            c('async_run 0')
+            collect()
+        c('net_conn %d send=-' % first['fd'])
+        c('net_ep agg.example 3332 connect=0 send=- recv=-')
+        hx = R.H(1, b'after-config/' + self.label.encode())
+        rid = None
+        out = None
+        events = []
+        for step in range(40):
+            now += 1
+            c('clock %d' % now)
+            q = c('async_run 0')
+            collect()
+            if q.get('handle') == '1':
+                events.append((q.get('state'), q.get('tag')))
+                if q.get('tag') == 'later':
+                    out = ('resp', q.get('sigdoc') == hx.hex()) if q.get('state') == '3' else ('err', int(q.get('herr', 0)))
+                    break
+            if step == 1:
+                qa = c('async_add 0 0 sign %s 0 later' % hx.hex())
+                if qa.rc != 0:
+                    out = ('add-refused', qa.rc)
+                    break
+                rid = int(qa['reqid'])
+            # the server answers every whole sign request it can read on an open connection
+            for info in [i2 for i2 in s.tcp_order[nconn0:] if i2['open'] and not i2.get('served')]:
+                buf, off = bytes(streams.get(info['seq'], b'')), 0
+                while off + 4 <= len(buf):
+                    try:
+                        t, off2, _ = R.read_tlv(buf, off)
+                        rq = S.parse_request(buf[off:off2], 'aggr', 2)
+                    except (R.TlvError, S.BadRequest):
+                        break
+                    off = off2
+                    if rq.get('hash') == hx and rid is not None:
+                        c('net_push %d %s' % (info['fd'], reply_for(random.Random('oc'), rid, hx, None).hex()))
+                        info['served'] = True
+        c('async_free 0')
+        collect()
+        return dict(streams={q2: bytes(v) for q2, v in streams.items()}, out=out, events=events, first_seq=first['seq'], later=(rid, hx))
+
     def run_client_fault(self, k, kind):
         """the first request is cut after k bytes by a would-block; then the peer closes ('eof') or the send timeout expires
         ('timeout'); afterwards everything is healthy again and one more request is added. Returns streams/outcomes."""
@@ -568,6 +699,71 @@ def async_part(job, r):
                     cv.viol('blocked-both-ways:not-completed-after-unblocking', 'after the peer started reading again the requests did not all complete on the one connection: %s, connections used %d' % (bad, res['nconn']), 'k=%s idle_first=%s' % (k, idle_first))
                 else:
                     r.count('blocked_both_ways_completed')
+        # several pushed configurations followed by the reply: the upper layer sees the PDUs in stream order whatever the chunking
+        if ci < 6:
+            def mr(x):
+                return [int(p.split(':')[1]) for p in x.split(',') if p.startswith('mr:') and p.split(':')[1] != '-']
+            for cname, chunker in (('whole', lambda st: [st]), ('two-per-chunk', None), ('cut-inside-second', None), ('random', None), ('bytewise-head', lambda st: [st[i:i + 1] for i in range(30)] + [st[30:]])):
+                for callback in (True, False):
+                    if chunker is None:
+                        one = len(S.wrap_v2(S.AGGR_RESP_V2, [S.conf_elem('aggr', 2, max_level=10, aggr_period=400, max_req=101)], KEY))
+                        if cname == 'two-per-chunk':
+                            ch = lambda st, one=one: [st[:2 * one], st[2 * one:4 * one], st[4 * one:]]
+                        elif cname == 'cut-inside-second':
+                            ch = lambda st, one=one: [st[:one + 5], st[one + 5:]]
+                        else:
+                            cuts = sorted(rng.sample(range(1, 4 * one), 3))
+                            ch = lambda st, cuts=cuts: split_stream(st, cuts)
+                    else:
+                        ch = chunker
+                    res = cv.run_pushed_configs(ch, callback)
+                    if 'error' in res:
+                        cv.viol('pushed-configs:setup', res['error'], '')
+                        continue
+                    r.count('pushed_config_streams')
+                    seen = [v for x in (res['callbacks'] if callback else res['handles']) for v in mr(x)]
+                    r.observe(('pushed-configs', cname, callback, tuple(seen), res['done'] and res['done'][0]))
+                    if callback and seen != [101, 102, 103, 104]:
+                        cv.viol('pushed-configs:callback-order', 'four pushed configurations (max requests 101..104) in one stream, chunking %s: the callback saw %s' % (cname, seen), 'chunking=%s' % cname)
+                    if not callback and (not seen or seen[-1] != 104 or seen != sorted(seen)):
+                        cv.viol('pushed-configs:handle-order', 'four pushed configurations (max requests 101..104) in one stream, chunking %s, no callback: configuration handles held %s (the last one has to hold 104, none may go back)' % (cname, seen), 'chunking=%s' % cname)
+                    if res['done'] != ('resp', hashes[0].hex()):
+                        cv.viol('pushed-configs:request-not-completed', 'the reply that followed the pushed configurations did not complete the request: %s' % (res['done'],), 'chunking=%s callback=%s' % (cname, callback))
+        # a configuration request overtaken, half written, by a configuration the server pushes
+        if ci < 6:
+            for k in [1, 2, 3, 4, 5, 20, rng.randrange(6, 40)]:
+                res = cv.run_config_request_overtaken(k)
+                if 'error' in res:
+                    cv.viol('config-overtaken:setup', res['error'], '')
+                    continue
+                r.count('config_request_overtaken_variants')
+                r.observe(('config-overtaken', k < 5, len(res['streams']), res['out'] and res['out'][0]))
+                # tiling: on every connection whole PDUs; only the LAST bytes of a connection may be a cut PDU, and only if that connection was given up
+                nseq = sorted(res['streams'])
+                for seq in nseq:
+                    buf, off = res['streams'][seq], 0
+                    while off < len(buf):
+                        try:
+                            t, off2, _ = R.read_tlv(buf, off)
+                            S.parse_request(buf[off:off2], 'aggr', 2)
+                        except (R.TlvError, S.BadRequest):
+                            break
+                        off = off2
+                    if off < len(buf):
+                        # what follows the last whole request may only be the beginning of ONE request (the connection was given up inside it):
+                        # if a complete element can be read from it, the stream went on after a cut request
+                        rest = bytes(buf[off:])
+                        try:
+                            R.read_tlv(rest, 0)
+                            complete = True
+                        except R.TlvError:
+                            complete = False
+                        if complete:
+                            cv.viol('config-overtaken:stream-does-not-tile', 'configuration request cut after %d bytes by a would-block, then a pushed configuration arrived: connection %d carries, after %d bytes of whole requests, %d bytes that are not a request but go on past a cut one: %s..' % (k, seq, off, len(rest), rest[:60].hex()), 'k=%d' % k)
+                if res['out'] != ('resp', True):
+                    cv.viol('config-overtaken:later-request:%s' % (res['out'][0] if res['out'] else 'never-returned'), 'configuration request cut after %d bytes, pushed configuration arrived, then a signing request was added: it ended %s (events %s)' % (k, res['out'], res['events']), 'k=%d' % k)
+                else:
+                    r.count('config_request_overtaken_later_completed')
         # re-connect after an established connection was closed: refused / never completing
         if ci < 6:
             for how in ('refused', 'hanging'):
@@ -715,6 +911,6 @@ def run(ctx):
     pool.run(ctx, worker, jobs, workers=16)
     c = ctx.counters
     if not ctx.violations and not ctx.known_printed:
-        ctx.require(c.get('blocked_both_ways_completed', 0) >= 50, 'blocked established connections observed')
+        ctx.require(c.get('blocked_both_ways_completed', 0) >= 50 and c.get('pushed_config_streams', 0) >= 50 and c.get('config_request_overtaken_later_completed', 0) >= 20, 'blocked established connections, pushed configurations and overtaken configuration requests observed')
         ctx.require(c.get('later_request_after_cut_resp', 0) >= 200, 'requests completed on a fresh connection after a cut')
         ctx.require(c.get('chunking_variants', 0) >= 1000 and c.get('fault_positions', 0) >= 500 and c.get('blocking_fault_positions', 0) >= 500, 'chunkings and fault positions explored')
